@@ -686,6 +686,7 @@ func runC09(c *Ctx) {
 	c09Decl(c)  // ---- 2d. type names, parameter lists, struct and filetype declarations (c09decl.go)
 
 	c09Call2(c) // ---- 2d. full call statements, return, retain, pipeline bodies (c09call2.go)
+	c09Pipe(c)  // ---- 2e. whole pipeline declarations incl. the reordering of calls (c09pipe.go)
 
 	// ---- 3. formatter monitors ----
 	progSeeds, _ := c08LoadSeeds(c)
